@@ -480,6 +480,8 @@ pub fn run_case(c: &Case, with_mock: bool) -> Outcome {
             }
             Ok(hex_bytes(&buf))
         });
+        // the text the derived `Serialize` of the instruction list produces
+        let js_text = catch(|| serde_json::to_string(&c.prog).map(|t| format!("{{\"instructions\":{t}}}")));
         match rt {
             Ok(Ok(h)) => sections.push(format!("bin:{h}")),
             Ok(Err(m)) => {
@@ -489,6 +491,20 @@ pub fn run_case(c: &Case, with_mock: bool) -> Outcome {
             Err(p) => {
                 fail("serialisation round trip panics", json!(p));
                 sections.push("bin:panic".into());
+            }
+        }
+        match js_text {
+            Ok(Ok(t)) => {
+                // and the reader accepts exactly this text
+                match catch(|| ZkirRelation::read(leak(&t)).map(|r| r.verif_instructions())) {
+                    Ok(Ok(p2)) if p2 == c.prog => {}
+                    _ => fail("a program does not survive its JSON / binary round trip", json!("serde_json::to_string text is not read back")),
+                }
+                sections.push(format!("json:{t}"))
+            }
+            _ => {
+                fail("serde_json::to_string fails on a program", json!(null));
+                sections.push("json:fail".into())
             }
         }
     }
